@@ -87,6 +87,12 @@ def direct(prop, ops):
         for i, (op, obs) in enumerate(ops):
             for l in lines_of(obs, "id e "):
                 k = l[5:]
+                if " DUP#" in k:
+                    # the harness itself saw World::spawn return an id it already knew (returned earlier, or handed to a
+                    # handler by Sender::spawn / a Spawn event).  Not attributed to F8: a leaked reservation makes later
+                    # spawns create surplus entities, it never makes an id come back (round-8 change C03_X_1).
+                    out.append(Finding(prop, i, "duplicate-id", f"spawn returned {k.split(' ')[0]}, which was handed out before as {k.split('DUP')[1]}"))
+                    continue
                 if k in seen:
                     out.append(Finding(prop, i, sig(i, "duplicate-id"), f"spawn returned {k} again (first at op {seen[k]})"))
                 seen[k] = i
